@@ -46,6 +46,10 @@ func runC19(run *common.Run) {
 			}
 		}
 	}
+	if run.Replay == nil && sched.HookHits() == 0 {
+		run.Blind("hooks never fired (built without -tags verif?)")
+		return
+	}
 	if run.WantSub("walk") && !run.TooMany() {
 		c19Walks(run)
 	}
@@ -251,6 +255,9 @@ func c19Walks(run *common.Run) {
 		res := sched.Run(p, ch, sched.Options{})
 		c19Record(run, res)
 		run.Count("walks", 1)
+		if res.Blind {
+			return
+		}
 		if res.Violation != nil {
 			run.Violation("walk", i, res.Violation.What, res.Violation)
 			return
